@@ -88,7 +88,7 @@ where
     U: User,
     E: Engine<U>,
 {
-    fn run(self: Rc<Self>, mut state: State<U, E>) -> SResult<U, E> {
+    fn run(self: Rc<Self>, state: State<U, E>) -> SResult<U, E> {
         let uwalk = state.smap_ref().walk(&self.u).clone();
         let vwalk = state.smap_ref().walk(&self.v).clone();
         let wwalk = state.smap_ref().walk(&self.w).clone();
@@ -112,10 +112,7 @@ where
                 LTermInner::Var(_, _),
             ) => {
                 /* u and v grounded */
-                state
-                    .smap_to_mut()
-                    .extend(wwalk.clone(), LTerm::from(u + v));
-                state.run_constraints()
+                state.unify(&wwalk, &LTerm::from(u + v))
             }
             (
                 LTermInner::Val(LValue::Number(u)),
@@ -123,10 +120,7 @@ where
                 LTermInner::Val(LValue::Number(w)),
             ) => {
                 /* u and w grounded */
-                state
-                    .smap_to_mut()
-                    .extend(vwalk.clone(), LTerm::from(w - u));
-                state.run_constraints()
+                state.unify(&vwalk, &LTerm::from(w - u))
             }
             (
                 LTermInner::Var(_, _),
@@ -134,10 +128,7 @@ where
                 LTermInner::Val(LValue::Number(w)),
             ) => {
                 /* v and w grounded */
-                state
-                    .smap_to_mut()
-                    .extend(uwalk.clone(), LTerm::from(w - v));
-                state.run_constraints()
+                state.unify(&uwalk, &LTerm::from(w - v))
             }
             (LTermInner::Var(_, _), LTermInner::Var(_, _), LTermInner::Var(_, _))
             | (LTermInner::Var(_, _), LTermInner::Var(_, _), LTermInner::Val(LValue::Number(_)))
